@@ -233,7 +233,11 @@ def get_breadcrumbs(node):
     node = node.parent
     while node.parent:
         if node.prompt:
-            result = [f":ref:`{get_link_anchor(node)}`"] + result
+            if node.prompt[0] in EXCLUDED_MENU_NAMES:
+                # excluded menus are never written, so there is no anchor to link to
+                result = [node.prompt[0]] + result
+            else:
+                result = [f":ref:`{get_link_anchor(node)}`"] + result
         node = node.parent
     return " > ".join(result)
 
